@@ -165,5 +165,7 @@ def check(ctx):
         a0 = strip(n2["c"][1])
         ctx.ob("C20.H7", site_of(F2, n2), "children are reaped by pid only (never 'any child'), so one handle cannot steal another's status",
                const_of(prog, a0) is None, {"pid_argument": expr_str(a0)})
+    from .. import startpath as SP
+    SP.reap_target_rule(ctx, prog, "C20.H7p")      # ... and on every path of the start code the pid is the one fork() just returned
     res, F, I = c12.check_m1(ctx, "posix-mt")
     c12.check_m2(ctx, prog, res, F)
